@@ -25,6 +25,15 @@ def specs(rng, tier, count):
         gm = [1, 0, 2, 3][(j // 3) % 4] if g == "plain" else [1, 0, 2, 3][j % 4]
         out.append(KC.gen_spec(rng, variant=v, geo=g, dim=dim, tier=tier, mean_nonzero=(v == "Simple" and i % 2 == 0), geom_mode=gm, drift_mode=(j + 3),
                            var_scale=([1e-10, 1e8, 1e-13][(i // 7) % 3] if i % 7 == 3 else None)))
+    # option cells of the base class: functional drift kind x number of external drifts x unbiased, cycled over
+    # geometries, exact / cond_err kinds, inverse routines, chunk sizes and mesh types (random inside gen_spec)
+    cells = [(d_, e_, u_) for d_ in range(4) for e_ in range(3) for u_ in (True, False)]
+    geos = ["plain", "plain", "time", "latlon", "plain", "latlon_time"]
+    for r_ in range(1 if tier == "quick" else 6):
+        for c_, cell in enumerate(cells):
+            g = geos[(c_ + r_) % len(geos)]
+            out.append(KC.gen_spec(rng, variant="Krige", geo=g, dim=(1 + (c_ + r_) % 3 if g == "plain" else None), tier=tier, cell=cell,
+                                   geom_mode=[1, 0, 2, 3][(c_ + r_) % 4]))
     return out
 
 
